@@ -150,6 +150,9 @@ pub struct InterpFacts {
     pub h: f64,
     /// restart probe: largest relative difference to the interpolant of the same step redone by a fresh solver (-1: not probed)
     pub rs_err: f64,
+    /// BDF: largest relative miss of the step's polynomial at the accepted points it is built from, when the last
+    /// `order` steps were equal in size (-1: not applicable)
+    pub hist_err: f64,
     pub l_err: f64, // max_i |interp(xold)_i - yold_i| / scale_i
     pub r_err: f64,
     pub finite: bool,
@@ -321,6 +324,8 @@ pub struct RecSolOut<'a, 'b> {
     pub k: usize,
     pub yold: Vec<f64>,
     pub script: Vec<Script>,
+    /// accepted points (x, y) since the start / the last ModifiedSolution, oldest first (BDF history fact)
+    pub hist: Vec<(f64, Vec<f64>)>,
 }
 
 impl<'a, 'b> SolOut for RecSolOut<'a, 'b> {
@@ -375,7 +380,33 @@ impl<'a, 'b> SolOut for RecSolOut<'a, 'b> {
                     }
                 }
             }
-            InterpFacts { lo, hi, ord, h: hstep, rs_err, l_err, r_err, finite }
+            let mut hist_err = -1.0;
+            let q = ord as usize;
+            if bdf && q >= 2 && self.hist.len() >= q && finite {
+                // points x_{n-1} .. x_{n-q}; the steps between them (and this one) equal in size
+                let pts: Vec<&(f64, Vec<f64>)> = self.hist.iter().rev().take(q).collect();
+                let hcur = *x - pts[0].0;
+                let mut equal = pts[0].0 == xold;
+                let mut right = *x;
+                for p in &pts {
+                    if ((right - p.0) - hcur).abs() > 8.0 * f64::EPSILON * xs { equal = false; }
+                    right = p.0;
+                }
+                if equal {
+                    hist_err = 0.0;
+                    let mut v = vec![0.0; n];
+                    for p in pts.iter().skip(1) {
+                        ip.interpolate(p.0, &mut v);
+                        for i in 0..n {
+                            let sc = (y[i].abs() + p.1[i].abs()).max(1e-300);
+                            let d = (v[i] - p.1[i]).abs() / sc;
+                            if d > hist_err || d.is_nan() { hist_err = if d.is_nan() { f64::INFINITY } else { d }; }
+                        }
+                    }
+                    if std::env::var("VERIF_HIST_DEBUG").is_ok() { eprintln!("HIST ord={} err={:e}", q, hist_err); }
+                }
+            }
+            InterpFacts { lo, hi, ord, h: hstep, rs_err, hist_err, l_err, r_err, finite }
         });
         let act = self.script.iter().find(|s| s.k == k).map(|s| s.action.clone());
         let mut ret = ControlFlag::Continue;
@@ -419,6 +450,9 @@ impl<'a, 'b> SolOut for RecSolOut<'a, 'b> {
         // the state logged is the one the solver continues from (after modification)
         self.instr.push(Ev::Cb { k, xold, x: *x, x_in, y: y.to_vec(), interp: facts, ret: rets.to_string() });
         self.yold = y.to_vec();
+        if rets == "Modified" { self.hist.clear(); }
+        self.hist.push((*x, y.to_vec()));
+        if self.hist.len() > 8 { self.hist.remove(0); }
         ret
     }
 }
@@ -581,7 +615,7 @@ pub fn execute(case: &Case, instr: &Instr) -> Outcome {
                 Err(e) => Outcome::Err(err_name(&e)),
             }
         } else {
-            let mut so = RecSolOut { instr, k: 0, yold: Vec::new(), script: case.script.clone() };
+            let mut so = RecSolOut { instr, k: 0, yold: Vec::new(), script: case.script.clone(), hist: Vec::new() };
             // low_nosolout: the documented call without a callback
             let mut so_opt: Option<&mut RecSolOut> = if case.low_nosolout { None } else { Some(&mut so) };
             let ms = case.max_steps;
@@ -730,6 +764,7 @@ pub fn trace(case: &Case, instr: &Instr, out: &Outcome) -> Vec<Value> {
         "teval": case.t_eval.as_ref().map(|v| v.iter().map(|t| tj(*t)).collect::<Vec<_>>()).unwrap_or_default(),
         "hasT": case.t_eval.is_some(),
         "hasFs": case.first_step.is_some(), "hasMs": case.max_step.is_some(), "hasMin": case.min_step.map_or(false, |m| m != 0.0), "nocb": case.low_nosolout,
+        "tin": case.t_eval.as_ref().map_or(true, |te| te.iter().all(|t| *t >= case.x0.min(case.xend) && *t <= case.x0.max(case.xend))),
         "maxsteps": case.max_steps.map(|v| v as i64).unwrap_or(-1),
         "dense": case.dense, "lowdense": !case.low_nodense,
         "events": case.events.iter().map(|e| json!({"dir": e.dir, "term": e.term})).collect::<Vec<_>>(),
@@ -794,7 +829,7 @@ pub fn trace(case: &Case, instr: &Instr, out: &Outcome) -> Vec<Value> {
                     Ev::Ode { t, injac, .. } => { if *injac { n_odej += 1 } else { n_ode += 1 }; rk.rank(*t) }
                     Ev::Jac { t } => { n_jac += 1; rk.rank(*t) }
                     Ev::Evt { t } => { n_ev += 1; rk.rank(*t) }
-                    Ev::Cb { x, interp, .. } => { n_cb += 1; if interp.as_ref().map_or(false, |f| f.rs_err > 1e-9) { rs_bad += 1; } rk.rank(*x) }
+                    Ev::Cb { x, interp, .. } => { n_cb += 1; if interp.as_ref().map_or(false, |f| f.rs_err > 1e-9 || f.hist_err > 1e-9) { rs_bad += 1; } rk.rank(*x) }
                     Ev::Hook { .. } => continue,
                 };
                 rmin = rmin.min(r);
@@ -831,7 +866,7 @@ pub fn trace(case: &Case, instr: &Instr, out: &Outcome) -> Vec<Value> {
                 let ip = interp.as_ref().map(|f| json!({
                     "lo": tj(f.lo), "hi": tj(f.hi),
                     "b_ok": (f.lo - xold.min(*x_in)).abs() <= ulps(scale.max(f.lo.abs()), 8.0) && (f.hi - xold.max(*x_in)).abs() <= ulps(scale.max(f.hi.abs()), 8.0),
-                    "rs_ok": !(f.rs_err > 1e-9), "rs": f.rs_err >= 0.0,
+                    "rs_ok": !(f.rs_err > 1e-9) && !(f.hist_err > 1e-9), "rs": f.rs_err >= 0.0 || f.hist_err >= 0.0,
                     "l_ok": f.l_err <= 1.0 || !f.finite,
                     "r_ok": f.r_err <= 1.0 || !f.finite,
                     "ord": f.ord, "heq": prev_h.map(|p: f64| p.abs().to_bits() == f.h.abs().to_bits()).unwrap_or(false),
@@ -923,9 +958,15 @@ fn ret_line(case: &Case, s: &Solution, rk: &Ranker, fs_fact: Value, dir: f64, ti
                     if let Ok(v) = &r {
                         let mut ok = v.len() == s.y[i].len();
                         if ok {
+                            // the stored times are themselves rounded: moving t by an ulp moves the value by y' ulp(t)
+                            // (matters at large offsets only: 64 eps |t| max|f|)
+                            let mut fv = vec![0.0; v.len()];
+                            if !fv.is_empty() { case.problem.f(*t, &s.y[i], &mut fv); }
+                            let fmax = fv.iter().fold(0.0f64, |a, b| if b.is_finite() { a.max(b.abs()) } else { a });
+                            let xround = 64.0 * f64::EPSILON * t.abs() * fmax;
                             for j in 0..v.len() {
                                 let sc = v[j].abs().max(s.y[i][j].abs()).max(1e-300);
-                                if !((v[j] - s.y[i][j]).abs() <= rel * sc + 1e-12) && !(v[j].is_nan() && s.y[i][j].is_nan()) { ok = false; }
+                                if !((v[j] - s.y[i][j]).abs() <= rel * sc + 1e-12 + xround) && !(v[j].is_nan() && s.y[i][j].is_nan()) { ok = false; }
                             }
                         }
                         if !ok { sol_at_t_ok = false; sol_at_t_fail += 1; }
